@@ -56,14 +56,20 @@ var (
 //     reads a header by number from this window — pruning it would break
 //     the syscall.
 //
-//  2. The hash → number mapping for endExclusive-1. Resolving
-//     StateAtBlockHash(endExclusive.parentHash) needs this single mapping;
-//     it is cleaned up by the next PruneUpto call's oldestKept-1 sweep, so
-//     between calls exactly one extra mapping survives below endExclusive.
+//  2. The hash → number mapping for oldestKept-1. Resolving
+//     StateAtBlockHash(oldestKept.parentHash) needs this single mapping;
+//     it is cleaned up by the next PruneUpto call's sweep, so between
+//     calls exactly one extra mapping survives below oldestKept.
 //
 // ctx cancellation aborts the per-block loop after the current iteration;
 // any work already queued plus the range delete for the partial window is
 // still flushed, so the next call resumes from where this one stopped.
+//
+// Every batch the sweep writes carries the number-keyed range delete for
+// the blocks it covers, so [OldestRetainedBlock] (and [RequireRetained])
+// never claim a block whose hash-keyed indexes and state history are
+// already gone: a crash or a failed commit between two batches leaves the
+// database exactly as a call cancelled at that block would.
 //
 // Returns (blocksPruned, oldestKept, err): blocksPruned is how many
 // blocks this call removed, and oldestKept is the lowest block number
@@ -90,15 +96,6 @@ func PruneUpto(
 
 	blockNum, err := pruneHashKeyedUpto(ctx, database, start, endExclusive, targetBatchByteSize)
 	if err != nil {
-		return 0, 0, err
-	}
-
-	batch := database.NewBatch()
-	defer batch.Close()
-	if err := PruneBlockDataUpto(batch, blockNum); err != nil {
-		return 0, 0, err
-	}
-	if err := batch.Write(); err != nil {
 		return 0, 0, err
 	}
 
@@ -153,17 +150,23 @@ func PruneBlockDataUpto(w db.KeyValueRangeDeleter, rangeEndExclusive uint64) err
 
 // pruneHashKeyedUpto deletes the hash-keyed indexes for every block in
 // [start, endExclusive), iterating per-block and rotating the batch
-// whenever its size exceeds targetBatchByteSize. Also point-deletes the
-// carve-out left at start-1 by the previous PruneUpto call. Owns its
-// own batch lifecycle and writes the final batch before returning.
+// whenever its size exceeds targetBatchByteSize. Every batch, rotated or
+// final, also carries [PruneBlockDataUpto] for the blocks processed so
+// far, so the retention probe moves together with the hash-keyed deletes.
+// Owns its own batch lifecycle and writes the final batch before returning.
 //
 // Indexes touched:
 //
-//   - BlockHeaderNumberByHash (skipping endExclusive-1, the carve-out
-//     for StateAtBlockHash(endExclusive.parentHash))
+//   - BlockHeaderNumberByHash, one iteration late: block N's iteration
+//     deletes the mapping of N-1, so the mapping of the block just below
+//     wherever the sweep stops (completion, cancellation, or the last
+//     batch that reached the disk) survives — the carve-out resolved by
+//     StateAtBlockHash(oldestKept.parentHash). The first iteration thereby
+//     cleans up the carve-out left at start-1 by the previous call.
 //   - TransactionBlockNumbersAndIndicesByHash
 //   - L1HandlerTxnHashByMsgHash (only for L1 handler txs)
 //   - ContractStorageHistory / ContractNonceHistory / ContractClassHashHistory
+//   - everything [PruneBlockDataUpto] deletes
 //
 // Returns the last blockNum reached (= endExclusive on completion, or
 // earlier if ctx was cancelled mid-loop).
@@ -177,15 +180,15 @@ func pruneHashKeyedUpto(
 	batch := database.NewBatch()
 	// batch is rotated below, so close whichever one is current at return.
 	defer func() { _ = batch.Close() }()
-	// Clean up the carve-out left by the previous PruneUpto call.
+
+	// Hash of the block below the one being processed; nil at genesis.
+	var prevHash *felt.Felt
 	if start > 0 {
 		blockHash, err := core.GetBlockHeaderHashByNumber(database, start-1)
 		if err != nil {
 			return 0, err
 		}
-		if err := core.DeleteBlockHeaderNumberByHash(batch, blockHash); err != nil {
-			return 0, err
-		}
+		prevHash = blockHash
 	}
 
 	blockNum := start
@@ -199,14 +202,12 @@ func pruneHashKeyedUpto(
 			return 0, err
 		}
 
-		// Skip endExclusive-1: its hash→number mapping is the carve-out
-		// resolved by StateAtBlockHash(endExclusive.parentHash). Cleaned up
-		// by the next PruneUpto call via the start-1 branch above.
-		if blockNum != endExclusive-1 {
-			if err := core.DeleteBlockHeaderNumberByHash(batch, su.BlockHash); err != nil {
+		if prevHash != nil {
+			if err := core.DeleteBlockHeaderNumberByHash(batch, prevHash); err != nil {
 				return 0, err
 			}
 		}
+		prevHash = su.BlockHash
 
 		if err := deleteTransactionHashReverseLookups(database, batch, blockNum); err != nil {
 			return 0, err
@@ -217,6 +218,9 @@ func pruneHashKeyedUpto(
 		}
 
 		if batch.Size() >= targetBatchByteSize {
+			if err := PruneBlockDataUpto(batch, blockNum+1); err != nil {
+				return 0, err
+			}
 			if err := batch.Write(); err != nil {
 				return 0, err
 			}
@@ -224,6 +228,9 @@ func pruneHashKeyedUpto(
 		}
 	}
 
+	if err := PruneBlockDataUpto(batch, blockNum); err != nil {
+		return 0, err
+	}
 	return blockNum, batch.Write()
 }
 
